@@ -334,6 +334,14 @@ func getInitialTimeForScheduling(
 // following popTime, such that it complies with the constraints of the
 // JobConfig's schedule.
 func getNext(jobConfig *execution.JobConfig, expr cron.Expression, fromTime time.Time) time.Time {
+	// Cannot schedule before NotBefore.
+	// NOTE(irvinlim): Compute next using fromTime, so we sub nanosecond in case time falls exactly on NotBefore
+	if spec := jobConfig.Spec.Schedule; spec != nil && spec.Constraints != nil {
+		if nbf := spec.Constraints.NotBefore; !nbf.IsZero() && fromTime.Before(nbf.Time) {
+			fromTime = nbf.Time.Add(-time.Nanosecond).In(fromTime.Location())
+		}
+	}
+
 	next := expr.Next(fromTime)
 
 	// Cannot schedule after NotAfter.
